@@ -761,7 +761,11 @@ def rules(tier):
             # C01-cb: max_probability taken from base_prob instead of prob - the resumed run starts above where it stopped
             ('C01.R14', _shared_rule('c08', 'r4_saved_position')),
             # C01-ca: skip_case restored from the skip_brute key - the resumed run continues in another grammar
-            ('C01.R15', _shared_rule('c08', 'r11_restore_is_verbatim'))]
+            ('C01.R15', _shared_rule('c08', 'r11_restore_is_verbatim')),
+            # C01-db: on an exact tie neither parent adopts (< became <=): the child and its sub-tree are never emitted
+            ('C01.R16', _shared_rule('c02', 'r1_adoption_kernel')),
+            # C01-da: the saved queue position written with 15 significant digits no longer round-trips
+            ('C01.R17', _shared_rule('plumbing', 'float_text_exact'))]
 
 
 META = {
